@@ -13,7 +13,7 @@ use serde_json::{json, Value};
 use crate::astjson::{date_of_daynum, daynum};
 use crate::rng::Rng;
 
-#[derive(Clone, Debug, PartialEq)]
+#[derive(Clone, Debug, PartialEq, Eq, Hash)]
 pub struct SynthLocale {
     pub synthetic: bool,
 }
